@@ -107,6 +107,10 @@ def payload_eq(kind, rp, ap):
     return rp == ap
 
 
+import collections
+RELAXED = collections.Counter()
+
+
 def compare(prog, word, outcome, tl, fcodes):
     """Returns None or (kind, text)."""
     n = len(word)
@@ -120,6 +124,12 @@ def compare(prog, word, outcome, tl, fcodes):
             return ("event-differs", "strict event #%d: reading performs %r, machine performs %r" % (i, re_[i], ae[i]))
         if k not in (g - 1, g):
             return ("event-position", "strict event #%d %r: reading at offset %d, machine while dispatching byte %d" % (i, (rk, rp), g, k))
+    if tl.terminal is not None and tl.terminal[1] == 1 and outcome.terminal and outcome.terminal[0] == "finish" and outcome.terminal[-1] == tl.terminal[0] \
+            and all(g == tl.terminal[0] for g, _, _ in re_[m:]):
+        # T3 with a `finish` among the pending actions: the reading executes finish (and what precedes it in the same gap) before
+        # looking at byte g; a machine that scheduled those actions lazily on byte g's transitions reports the mismatch of byte g instead
+        RELAXED["t3_finish_pending_at_error"] += 1
+        return None
     if len(re_) > m:
         extra = re_[m:]
         if tl.terminal is not None and not (tl.terminal[1] == 1 and outcome.terminal and outcome.terminal[0] == "fail"):
@@ -243,6 +253,45 @@ def interfering_pair(body):
     return bool(found)
 
 
+def loop_starts_with_break(body):
+    """Some loop body begins with actions that contain a break (plain or inside an action-only if): when nothing before the loop can host
+    them eagerly they are scheduled on the transitions of the body's first match, and the break then swallows that match's byte."""
+    def has_break(st_):
+        if st_[0] == "break":
+            return True
+        if st_[0] == "if":
+            return any(has_break(x) for br in st_[1] for x in br[1]) or any(has_break(x) for x in (st_[2] or ()))
+        return False
+
+    def scan(b):
+        for st_ in b:
+            k = st_[0]
+            subs = []
+            if k == "loop":
+                lead = []
+                for x in st_[2]:
+                    if not ir.is_action(x):
+                        break
+                    lead.append(x)
+                if any(has_break(x) for x in lead):
+                    return True
+                subs = [st_[2]]
+            elif k == "optional":
+                subs = [st_[1]]
+            elif k == "case":
+                subs = [x[2] for x in st_[2]]
+            elif k == "try":
+                subs = [st_[2], st_[3]]
+            elif k == "foreach":
+                subs = [st_[1]]
+            elif k == "if":
+                subs = [x[1] for x in st_[1]] + ([st_[2]] if st_[2] else [])
+            if any(scan(sb) for sb in subs if sb):
+                return True
+        return False
+    return scan(body)
+
+
 def outcome_lookahead_end(prog):
     """Can the program end by lookahead (its last consuming statement is open-ended / nullable)?"""
     s, _ = ir.analyse(prog.body)
@@ -288,6 +337,9 @@ def check_program(shard, prog, argv, max_len, choices_list=(), do_c=True):
         if d and block_ends_nullable(prog.body):
             raise Failure("c01:actions-after-block-ending-in-optional-lost-when-skipped", "input %s: %s\nreading: events=%r terminal=%r\nmachine: events=%r terminal=%r\n%s"
                           % (word.hex(), d[1], outcome.events[-6:], outcome.terminal, tl.events[-6:], tl.terminal, src), dict(replay, input=word.hex()))
+        if d and loop_starts_with_break(prog.body):
+            raise Failure("c01:lazily-scheduled-break-swallows-the-byte-it-was-scheduled-on", "input %s: %s\nreading: events=%r terminal=%r\nmachine: events=%r terminal=%r\n%s"
+                          % (word.hex(), d[1], outcome.events[-6:], outcome.terminal, tl.events[-6:], tl.terminal, src), dict(replay, input=word.hex()))
         if d and interfering_pair(prog.body):
             raise Failure("c01:eager-nonstrict-action-interferes-with-open-append", "input %s: %s\nreading: events=%r terminal=%r\nmachine: events=%r terminal=%r\n%s"
                           % (word.hex(), d[1], outcome.events[-6:], outcome.terminal, tl.events[-6:], tl.terminal, src), dict(replay, input=word.hex()))
@@ -305,6 +357,9 @@ def check_program(shard, prog, argv, max_len, choices_list=(), do_c=True):
     except Undefined:
         shard.event("start_undefined")
         return
+    for k_, v_ in RELAXED.items():
+        shard.event("relaxed:" + k_, v_)
+    RELAXED.clear()
     kinds = ir.kinds(prog.body)
     blocks = sum(1 for k in kinds if k in ("loop", "case", "optional", "try", "foreach", "if"))
     if (blocks >= 2 or "try" in kinds) and stats_local["action_events"] and stats_local["error_transfers"]:
@@ -352,7 +407,17 @@ def check_program(shard, prog, argv, max_len, choices_list=(), do_c=True):
                 dd = compare(prog, d, outcome, tl, prog.fcodes)
                 prog._selfref, prog._mixed = saved
                 if dd and dd[0] != "final-outputs":
-                    raise Failure("c01:c:" + dd[0], "input %s through the C binary: %s\n%s" % (d.hex(), dd[1], src), dict(replay, input=d.hex()))
+                    # the same root causes as in the walk: classify by the shapes the open findings are known to need
+                    known_key = None
+                    if any(k_ == "overflow" and p_[-1] == "char" for _, k_, p_ in tl.events):
+                        known_key = "c01:char-append-overflow-redispatches-consumed-byte"
+                    elif block_ends_nullable(prog.body):
+                        known_key = "c01:actions-after-block-ending-in-optional-lost-when-skipped"
+                    elif loop_starts_with_break(prog.body):
+                        known_key = "c01:lazily-scheduled-break-swallows-the-byte-it-was-scheduled-on"
+                    elif interfering_pair(prog.body):
+                        known_key = "c01:eager-nonstrict-action-interferes-with-open-append"
+                    raise Failure(known_key or ("c01:c:" + dd[0]), "input %s through the C binary: %s\n%s" % (d.hex(), dd[1], src), dict(replay, input=d.hex()))
         finally:
             binary.close()
 
@@ -381,6 +446,11 @@ def worker(job):
 
 
 KNOWN_PROGRAMS = {
+    "c01:lazily-scheduled-break-swallows-the-byte-it-was-scheduled-on": ir.Program(
+        [("int", "n0", True, None, 0)], ["h0"], [], [], [],
+        (("optional", (("match", ("lit", b"a", "str")),)),
+         ("loop", None, (("if", ((("bin", "==", ("var", "n0"), ("num", 0, "dec")), (("break", None),)),), None), ("match", ("lit", b"b", "str")))),
+         ("match", ("lit", b"b", "str")), ("hook", "h0")), ["-O0"]),
     "c01:actions-after-block-ending-in-optional-lost-when-skipped": ir.Program(
         [], ["h0"], [], [], [],
         (("case", False, (((("lit", b"a", "str"),), None, (("optional", (("match", ("lit", b"a", "str")),)),)),)), ("hook", "h0"), ("match", ("lit", b"b", "str"))), ["-O1"]),
